@@ -280,7 +280,28 @@ fn main() {
         while total < nevents {
             // a new connection
             let wchunk = if rng.chance(1, 2) { 7 } else { 65536 };
-            let mut s = StreamSession::new(rt_ticks, idle_ticks, wchunk);
+            // the configuration of this connection: mostly the timeouts given
+            // on the command line; sometimes a streaming timeout of its own,
+            // values beyond the ends of the ranges (capped), the defaults,
+            // or no configuration object at all
+            let t = TICK.as_millis() as u64;
+            let conf = match rng.below(12) {
+                0 => StreamSession::conf_of(rt_ticks, rt_ticks + 1, idle_ticks),
+                1 => StreamSession::conf_of(rt_ticks, 1, idle_ticks),
+                2 => json!({"route": "default", "calls": []}),
+                3 => json!({"route": "conn_new", "calls": []}),
+                4 => json!({"route": "new", "calls": [
+                    {"f": "set_idle_timeout", "v": 7_200_000},
+                    {"f": "set_response_timeout", "v": 700_000},
+                    {"f": "set_response_timeout", "v": rt_ticks * t - t / 2}]}),
+                5 => json!({"route": "default", "calls": [
+                    {"f": "set_streaming_response_timeout", "v": 0},
+                    {"f": "set_idle_timeout", "v": 0},
+                    {"f": "set_response_timeout", "v": 2 * t - t / 2},
+                    {"f": "set_streaming_response_timeout", "v": t - t / 2}]}),
+                _ => StreamSession::conf_of(rt_ticks, rt_ticks, idle_ticks),
+            };
+            let (mut s, eff) = StreamSession::with_conf(&conf, wchunk).expect("configuration script");
             s.settle().await;
             let mut rc = Rec {
                 s,
@@ -294,7 +315,7 @@ fn main() {
                 stalled: false,
                 unwritten: Default::default(),
             };
-            w.event(json!({"ev": "reset"}));
+            w.event(json!({"ev": "reset", "conf": conf, "eff": eff}));
             total += 1;
             // how many requests this connection wants outstanding at once
             let target = *rng.pick(&[3usize, 12, 50, 50, 64]);
